@@ -637,22 +637,7 @@ func TestVerifC25Random(t *testing.T) {
 		if i%4 == 0 { // page through the whole window with the markers of the real rows
 			w := &verifC25Walk{St: c.St, To: c.To, Desc: c.Desc, Limit: c.Limit, NBy: c.NBy, SKey: c.SKey}
 			pages := e.walk(t, w, c.Lods, 200)
-			whole := *c
-			whole.From, whole.Limit = verifC25Key{0}, 1<<30
-			want, _, _ := e.expect(&whole)
-			var got []verifC25Key
-			ok := true
-			for pi, p := range pages {
-				got = append(got, p.Keys...)
-				last := pi == len(pages)-1
-				if p.More == last || (!last && len(p.Keys) != c.Limit) {
-					ok = false
-				}
-			}
-			ok = ok && len(got) == len(want)
-			for j := 0; ok && j < len(want); j++ {
-				ok = verifC25Eq(got[j], want[j])
-			}
+			ok, want := e.partition(w, c.Lods, pages)
 			res.Count("walks", 1)
 			res.Count("walk_pages", len(pages))
 			if !ok {
@@ -684,7 +669,29 @@ type verifC25Walk struct {
 	Limit int             `json:"limit"`
 	NBy   int             `json:"nby"`
 	SKey  bool            `json:"skey"`
-	Pages []verifC25Page  `json:"pages"`
+	Pages []verifC25Page  `json:"pages"`          // the pages of the specification (TLC walks)
+	Lods  [][]int64       `json:"lods,omitempty"` // only this split (replay of a stored witness)
+}
+
+// partition: do the pages, concatenated, hold every row of the window exactly once and in order,
+// every page but the last full and announcing more?
+func (e *verifC25Env) partition(w *verifC25Walk, lods [][]int64, pages []verifC25Page) (bool, []verifC25Key) {
+	whole := &verifC25Case{Lods: lods, St: w.St, From: verifC25Key{0}, To: w.To, Desc: w.Desc, Limit: 1 << 30, NBy: w.NBy, SKey: w.SKey}
+	want, _, _ := e.expect(whole)
+	var got []verifC25Key
+	ok := true
+	for pi, p := range pages {
+		got = append(got, p.Keys...)
+		last := pi == len(pages)-1
+		if p.More == last || (!last && len(p.Keys) != w.Limit) {
+			ok = false
+		}
+	}
+	ok = ok && len(got) == len(want)
+	for j := 0; ok && j < len(want); j++ {
+		ok = verifC25Eq(got[j], want[j])
+	}
+	return ok, want
 }
 
 // the marker the real row carries (what handleGetTable encodes into FromRow/ToRow), as a key
@@ -759,12 +766,20 @@ func TestVerifC25Paging(t *testing.T) {
 			t.Fatalf("verifC25: bad walk: %v", err)
 		}
 		n++
-		for _, lods := range splits {
-			got := e.walk(t, &w, lods, len(w.Pages)+2)
+		use := splits
+		if len(w.Lods) > 0 {
+			use = [][][]int64{w.Lods}
+		}
+		for _, lods := range use {
+			got := e.walk(t, &w, lods, len(w.Pages)+200)
 			res.Replayed++
 			res.Steps += len(got)
 			res.Seen(fmt.Sprintf("p%d/l%d", len(got), len(lods)))
-			if !verifC25PagesEq(got, w.Pages) {
+			same := verifC25PagesEq(got, w.Pages)
+			if len(w.Pages) == 0 {
+				same, _ = e.partition(&w, lods, got)
+			}
+			if !same {
 				res.Mismatch(verifkit.Mismatch{Beh: map[string]any{"walk": w, "lods": lods}, Step: n, Want: w.Pages, Got: got, Sig: "paging",
 					Note: "paging with the markers of the real rows does not produce the pages of the specification"})
 			}
